@@ -279,7 +279,51 @@ def derive_job(job):
                 history=[str(o)[:120] for o in ops] + [f"overrides applied to the {which} template"])
 
 
+def derive_edges_job(job):
+    """update_template(edges=[...]) without in_place returns a NEW template that inherits the edges of its parent: an
+    edge attribute set on the derived template must change that edge of that template only (not the parent's, not that
+    of a sibling derived from the same parent)"""
+    spec, fp = base_spec(job['shared'], False)
+    base_ct = build_python(spec)
+    ops_init, spec0, _ = gen_history(spec, fp, random.Random(0), 0, False)      # (distinct initial values per node)
+    apply_ops(base_ct, ops_init)
+    spec = spec0
+    w1, w2, wv = fp(), fp(), fp()
+    d1 = base_ct.update_template(name='m_d1', edges=[('a2/o1/x', 'a0/o1/w', None, {'weight': float(w1)})])
+    d2 = base_ct.update_template(name='m_d2', edges=[('a2/o1/x', 'a1/o1/w', None, {'weight': float(w2)})])
+    i = job['seed'] % len(spec.edges)
+    e = spec.edges[i]
+    target = d1 if job.get('derive_on', 'derived') == 'derived' else base_ct
+    target.update_var(edge_vars=[(e.src, e.tgt, {'weight': float(wv)})])
+    exp_b, exp_1, exp_2 = copy.deepcopy(spec), copy.deepcopy(spec), copy.deepcopy(spec)
+    exp_1.edges.append(EdgeSpec('a2/o1/x', 'a0/o1/w', w1))
+    exp_2.edges.append(EdgeSpec('a2/o1/x', 'a1/o1/w', w2))
+    (exp_1 if target is d1 else exp_b).edges[i] = EdgeSpec(e.src, e.tgt, wv, e.delay, e.spread, e.template, e.edge_overrides)
+    T = decide.Tally()
+    res_all = dict(violations=[], inconclusive=[], obligations=[], diagnostics=[])
+    src, hist = '', [f"d1 = base.update_template(edges=[a2->a0]); d2 = base.update_template(edges=[a2->a1]); "
+                     f"{'d1' if target is d1 else 'base'}.update_var(edge_vars=[({e.src}, {e.tgt}, weight)])"]
+    for label, ct, ex in (('template it was derived from', base_ct, exp_b), ('sibling derived template', d2, exp_2),
+                          ('derived template', d1, exp_1)):
+        try:
+            c = tv.compile_template(ct, vectorize=job['vectorize'], in_place=False)
+        except tv.CompileError as err:
+            return dict(status='compile-raises', error=f"{label}: {err}", exp_spec=ex)
+        res = tvspec.validate(ex, c, T, vectorized=job['vectorize'])
+        for v in res['violations']:
+            v['what'] = f"{label}: {v.get('what')}"
+        for k in res_all:
+            res_all[k] += res.get(k, [])
+        src = c.src
+        if any('finding' not in v for v in res['violations']):
+            return dict(status='ok', res=res_all, tally=T.as_dict(), src=src, keys=list(c.keys),
+                        smap={k: str(v) for k, v in c.smap.items()}, exp_spec=ex, history=hist)
+    return dict(status='ok', res=res_all, tally=T.as_dict(), src=src, keys=[], smap={}, exp_spec=exp_1, history=hist)
+
+
 def job_fn(job):
+    if job.get('derive_edges'):
+        return derive_edges_job(job)
     if job.get('derive'):
         return derive_job(job)
     rnd = random.Random(job['seed'])
@@ -360,6 +404,11 @@ def run(tier='quick', seed=0, only=None, verbose=False):
             jobs.append(dict(key=f"derive:{seed}:{i}:on={on}|vec={bool(i % 2)}", seed=seed * 1000 + 500 + i, shared=bool(i % 3),
                              hier=True, length=1 + i % 3, vectorize=bool(i % 2), derive=True, derive_on=on,
                              spec=base_spec(bool(i % 3), True)[0]))
+    for i in range(4 if tier == 'quick' else 16):
+        for on in ('derived', 'base'):
+            jobs.append(dict(key=f"derive-edges:{seed}:{i}:on={on}|vec={bool(i % 2)}", seed=seed * 1000 + 600 + i,
+                             shared=bool(i % 3), hier=False, vectorize=bool(i % 2), derive_edges=True, derive_on=on,
+                             spec=base_spec(bool(i % 3), False)[0]))
     if only:
         jobs = [j for j in jobs if only in j['key']]
     tvjobs.run_tv_jobs(rep, jobs, verbose=verbose, fn=job_fn)
